@@ -82,6 +82,11 @@ var props = map[string]propInfo{
 	"C19": {"C", "one evaluation = one synctest bubble as for C18 with adversarial requests and transport faults; non-trivial = at least one adversarial request or transport fault followed by a judged probe; distinct = distinct tuples (endpoint, method, attack kind, expectation class, status, connection reused, role main/probe-same-conn/probe-fresh-conn/probe-final, number of body fields, model verdict) of answered requests"},
 }
 
+// alsoWorld: a second world in which a slice of the workers decides a further
+// clause of the property (C13: the verdict clause for validations made while
+// other callers are inside the library).
+var alsoWorld = map[string]string{"C13": "A"}
+
 type worldInfo struct {
 	Pkg     string // package dir inside the scratch repo
 	Src     string // harness source dir in /verif/harness
@@ -139,6 +144,7 @@ func usage() {
 // scratch copy, instrumentation, build
 
 type scratch struct {
+	world string
 	dir   string // root of scratch area
 	repo  string // copy of /repo
 	bins  map[string]string
@@ -226,7 +232,7 @@ func prepare(world, keepDir string) (*scratch, error) {
 	if !ok {
 		return nil, fmt.Errorf("unknown world %q", world)
 	}
-	sc := &scratch{bins: map[string]string{}}
+	sc := &scratch{bins: map[string]string{}, world: world}
 	if keepDir != "" {
 		sc.dir = keepDir
 		sc.keep = true
@@ -252,7 +258,16 @@ func prepare(world, keepDir string) (*scratch, error) {
 	if err != nil {
 		return nil, fmt.Errorf("copy /repo: %w", err)
 	}
-	in := &instrumenter{swapSync: wi.Swap}
+	// World B calls the library from one goroutine and leaves sync primitives
+	// alone - unless the library starts goroutines of its own: then every call
+	// is run under the baton scheduler (one caller task plus what it starts), which
+	// needs the same rewriting as World A.
+	swap := wi.Swap
+	libGo := false
+	if (world == "A" || world == "B") && packageStartsGoroutines(sc.repo) {
+		swap, libGo = true, true
+	}
+	in := &instrumenter{swapSync: swap, libGoroutines: libGo}
 	if err := in.instrumentDir(sc.repo, ""); err != nil {
 		return nil, fmt.Errorf("instrument package otp: %w", err)
 	}
@@ -264,8 +279,8 @@ func prepare(world, keepDir string) (*scratch, error) {
 		}
 		in.sites = ain.sites
 	}
-	if wi.Swap && len(in.unsupported) > 0 {
-		return nil, fmt.Errorf("package otp uses concurrency primitives the World A simulator does not model: %s", strings.Join(in.unsupported, "; "))
+	if swap && len(in.unsupported) > 0 {
+		return nil, fmt.Errorf("package otp uses concurrency primitives the simulator does not model: %s", strings.Join(in.unsupported, "; "))
 	}
 	sc.sites = len(in.sites)
 	rtDst := filepath.Join(sc.repo, "internal/verifrt")
@@ -484,6 +499,7 @@ type workerResult struct {
 	timedOut bool
 	logPath  string
 	hashes   []uint64
+	sc       *scratch
 }
 
 func runWorker(sc *scratch, prop, tier, variant string, idx int, seed uint64, budget float64, shrink string, extraEnv []string) workerResult {
@@ -496,7 +512,7 @@ func runWorker(sc *scratch, prop, tier, variant string, idx int, seed uint64, bu
 	shr, _ := time.ParseDuration(shrink)
 	hard := time.Duration(budget*float64(time.Second)) + shr + 180*time.Second
 	args := []string{"-test.run", "^TestSim$", "-test.count=1", "-test.timeout", (hard - 30*time.Second).String()}
-	if worlds[props[prop].World].OneCPU {
+	if worlds[sc.world].OneCPU {
 		args = append(args, "-test.cpu", "1")
 	}
 	cmd := exec.Command(bin, args...)
@@ -563,7 +579,7 @@ func replayOnce(sc *scratch, prop, variant, path string, extraEnv []string) (str
 	bin := sc.bins[variant]
 	out := filepath.Join(sc.dir, fmt.Sprintf("replay-out-%d.json", time.Now().UnixNano()))
 	args := []string{"-test.run", "^TestSim$", "-test.count=1", "-test.timeout", "10m", "-test.v"}
-	if worlds[props[prop].World].OneCPU {
+	if worlds[sc.world].OneCPU {
 		args = append(args, "-test.cpu", "1")
 	}
 	cmd := exec.Command(bin, args...)
@@ -576,7 +592,7 @@ func replayOnce(sc *scratch, prop, variant, path string, extraEnv []string) (str
 		_ = json.Unmarshal(sb, &ws)
 	} else {
 		txt := string(b)
-		if err != nil && (strings.Contains(txt, "panic:") || strings.Contains(txt, "fatal error:") || strings.Contains(txt, "SIGSEGV") || strings.Contains(txt, "VERIF-HANG")) {
+		if err != nil && (strings.Contains(txt, "panic:") || strings.Contains(txt, "fatal error:") || strings.Contains(txt, "SIGSEGV") || strings.Contains(txt, "VERIF-HANG")) && !strings.Contains(txt, "VERIF-UNSUPPORTED") {
 			return "PROCESS-CRASH", txt, nil
 		}
 		return "", txt, fmt.Errorf("replay produced no result file: %v\n%s", err, tail(txt, 40))
@@ -597,7 +613,7 @@ func replayHistory(sc *scratch, prop, variant string, ff *failFile) (string, str
 	bin := sc.bins[variant]
 	out := filepath.Join(sc.dir, fmt.Sprintf("hist-out-%d.json", time.Now().UnixNano()))
 	args := []string{"-test.run", "^TestSim$", "-test.count=1", "-test.timeout", "60m"}
-	if worlds[props[prop].World].OneCPU {
+	if worlds[sc.world].OneCPU {
 		args = append(args, "-test.cpu", "1")
 	}
 	cmd := exec.Command(bin, args...)
@@ -612,7 +628,11 @@ func replayHistory(sc *scratch, prop, variant string, ff *failFile) (string, str
 	if sb, e := os.ReadFile(out); e == nil {
 		_ = json.Unmarshal(sb, &ws)
 	} else {
-		return "", string(b), fmt.Errorf("history replay produced no result file: %v\n%s", err, tail(string(b), 30))
+		txt := string(b)
+		if err != nil && (strings.Contains(txt, "panic:") || strings.Contains(txt, "fatal error:") || strings.Contains(txt, "SIGSEGV") || strings.Contains(txt, "VERIF-HANG")) && !strings.Contains(txt, "VERIF-UNSUPPORTED") {
+			return "PROCESS-CRASH", txt, nil
+		}
+		return "", txt, fmt.Errorf("history replay produced no result file: %v\n%s", err, tail(txt, 30))
 	}
 	if ws.ReplayFound {
 		return ws.ReplaySig, string(b), nil
@@ -690,6 +710,14 @@ func cmdCheck(args []string) int {
 		fmt.Fprintf(os.Stderr, "INFRASTRUCTURE: %v\n", err)
 		return 2
 	}
+	var sc2 *scratch
+	if w2 := alsoWorld[prop]; w2 != "" {
+		sc2, err = prepare(w2, "")
+		if err != nil {
+			fmt.Fprintf(os.Stderr, "INFRASTRUCTURE: %v\n", err)
+			return 2
+		}
+	}
 	buildS := time.Since(start).Seconds()
 	fmt.Printf("verif: built instrumented scratch copy (%d sites) in %.1fs\n", sc.sites, buildS)
 	tc := tierFor(prop, tier)
@@ -697,7 +725,11 @@ func cmdCheck(args []string) int {
 	var detInfo map[string]any
 	if tier == "thorough" && os.Getenv("VERIF_SKIP_SELFTEST") == "" {
 		execs, bad, missing, _ := selftest(sc, prop, 12, true)
-		detInfo = map[string]any{"seeds": 12, "plans_per_seed": 40, "executions": execs, "divergent": bad, "missing_or_failed": missing, "compared": "complete event logs under GOMAXPROCS 1/4/16 (World A: plain and race binary)"}
+		if sc2 != nil {
+			e2, b2, m2, _ := selftest(sc2, prop, 12, true)
+			execs, bad, missing = execs+e2, bad+b2, missing+m2
+		}
+		detInfo = map[string]any{"seeds": 12, "plans_per_seed": 40, "executions": execs, "divergent": bad, "missing_or_failed": missing, "compared": "complete event logs of each binary under GOMAXPROCS 1/4/16 (World A: plain and race binary, each with itself)"}
 		fmt.Printf("verif: determinism self-test executions=%d divergent=%d missing=%d\n", execs, bad, missing)
 		if bad > 0 || missing > 0 {
 			fmt.Fprintf(os.Stderr, "INFRASTRUCTURE: determinism self-test failed (%d divergent, %d missing): replay cannot be trusted\n", bad, missing)
@@ -708,16 +740,21 @@ func cmdCheck(args []string) int {
 	type wjob struct {
 		variant string
 		idx     int
+		sc      *scratch
 	}
 	var jobs []wjob
 	for i := 0; i < tc.Workers; i++ {
 		v := "plain"
+		if sc2 != nil && tc.Workers >= 4 && i >= tc.Workers-tc.Workers/4 {
+			jobs = append(jobs, wjob{v, i, sc2})
+			continue
+		}
 		if wi.Race && i%2 == 1 && prop == "C11" {
 			// the race oracle belongs to C11 only; for C08/C12 a race report is not their
 			// business (and the testing package would fail the process on it)
 			v = "race"
 		}
-		jobs = append(jobs, wjob{v, i})
+		jobs = append(jobs, wjob{v, i, sc})
 	}
 	results := make([]workerResult, len(jobs))
 	var wg sync.WaitGroup
@@ -725,7 +762,8 @@ func cmdCheck(args []string) int {
 		wg.Add(1)
 		go func(i int, j wjob) {
 			defer wg.Done()
-			results[i] = runWorker(sc, prop, tier, j.variant, j.idx, h64("seed", seed, prop, j.idx)|1, tc.Budget, tc.Shrink, nil)
+			results[i] = runWorker(j.sc, prop, tier, j.variant, j.idx, h64("seed", seed, prop, j.idx)|1, tc.Budget, tc.Shrink, nil)
+			results[i].sc = j.sc
 		}(i, j)
 	}
 	wg.Wait()
@@ -737,6 +775,7 @@ func cmdCheck(args []string) int {
 	type cand struct {
 		ff      *failFile
 		variant string
+		sc      *scratch
 	}
 	cands := map[string]cand{}
 	for _, r := range results {
@@ -766,7 +805,7 @@ func cmdCheck(args []string) int {
 		}
 		if r.fail != nil {
 			if _, seen := cands[r.fail.Signature]; !seen {
-				cands[r.fail.Signature] = cand{r.fail, r.variant}
+				cands[r.fail.Signature] = cand{r.fail, r.variant, r.sc}
 			}
 		} else if r.exitErr != nil || r.stats == nil {
 			infra = append(infra, fmt.Sprintf("worker %d (%s) failed without a violation file: %v\n%s", r.idx, r.variant, r.exitErr, readTail(r.logPath, 40)))
@@ -800,7 +839,7 @@ func cmdCheck(args []string) int {
 			infra = append(infra, "cannot write replay file: "+err.Error())
 			continue
 		}
-		got, outTxt, err := replayOnce(sc, prop, c.variant, rpath, nil)
+		got, outTxt, err := replayOnce(c.sc, prop, c.variant, rpath, nil)
 		if err != nil {
 			infra = append(infra, fmt.Sprintf("replay of %s failed: %v", rpath, err))
 			continue
@@ -808,10 +847,22 @@ func cmdCheck(args []string) int {
 		if c.ff.Crash && got == "PROCESS-CRASH" {
 			got = sig
 		}
+		if got != sig && c.ff.Crash && c.ff.WorkerSeed != 0 {
+			// the process died, but not from this plan alone: it needs what earlier
+			// runs of the same process left behind
+			hg, _, herr := replayHistory(c.sc, prop, c.variant, c.ff)
+			if herr == nil && hg == "PROCESS-CRASH" {
+				c.ff.History, c.ff.Variant = true, c.variant
+				hb, _ := json.MarshalIndent(c.ff, "", " ")
+				_ = os.WriteFile(rpath, hb, 0o644)
+				got = sig
+				fmt.Printf("note: %s (process death) reproduces only with the history of its worker process (seed %d, %d runs); replay file marked history=true\n", sig, c.ff.WorkerSeed, c.ff.RunIndex)
+			}
+		}
 		if got != sig && !c.ff.Crash && c.ff.WorkerSeed != 0 {
 			// the minimised plan alone does not show it: the violation needs state that
 			// earlier runs of the same process left behind. Regenerate the whole history.
-			hg, _, herr := replayHistory(sc, prop, c.variant, c.ff)
+			hg, _, herr := replayHistory(c.sc, prop, c.variant, c.ff)
 			if herr == nil && hg == sig {
 				c.ff.History, c.ff.Variant = true, c.variant
 				hb, _ := json.MarshalIndent(c.ff, "", " ")
@@ -870,6 +921,11 @@ func cmdCheck(args []string) int {
 		samples = append(samples, "no non-trivial run recorded")
 	}
 	comp := worldComponents(pi.World)
+	worldDesc := pi.World
+	if sc2 != nil {
+		worldDesc = pi.World + " (3/4 of the workers) + " + sc2.world + " (1/4 of the workers: the same clause for calls made while other simulated callers are inside the library)"
+		comp["second_world"] = worldComponents(sc2.world)
+	}
 	ev := map[string]any{
 		"property_id": prop,
 		"tier":        tier,
@@ -881,7 +937,7 @@ func cmdCheck(args []string) int {
 			"nontrivial_runs":           agg.NonTrivial,
 			"rule":                      pi.Rule,
 			"samples":                   samples,
-			"world":                     pi.World,
+			"world":                     worldDesc,
 			"workers":                   tc.Workers,
 			"budget_s_per_worker":       tc.Budget,
 			"runs_per_hour":             float64(agg.Runs) / runWall * 3600,
@@ -975,7 +1031,11 @@ func cmdReplay(args []string) int {
 		fmt.Fprintln(os.Stderr, "INFRASTRUCTURE: unknown property in replay file")
 		return 2
 	}
-	sc, err := prepare(pi.World, "")
+	rw := pi.World
+	if ff.World != "" && ff.World == alsoWorld[ff.Property] {
+		rw = ff.World
+	}
+	sc, err := prepare(rw, "")
 	defer cleanupAll()
 	if err != nil {
 		fmt.Fprintf(os.Stderr, "INFRASTRUCTURE: %v\n", err)
@@ -1044,6 +1104,15 @@ func cmdSelftest(args []string) int {
 		nSeeds, _ = strconv.Atoi(v)
 	}
 	execs, bad, missing, sample := selftest(sc, prop, nSeeds, true)
+	if w2 := alsoWorld[prop]; w2 != "" {
+		sc2, err := prepare(w2, "")
+		if err != nil {
+			fmt.Fprintf(os.Stderr, "INFRASTRUCTURE: %v\n", err)
+			return 2
+		}
+		e2, b2, m2, _ := selftest(sc2, prop, nSeeds, true)
+		execs, bad, missing = execs+e2, bad+b2, missing+m2
+	}
 	fmt.Printf("sample: seed=7000 %v\n", sample)
 	fmt.Printf("selftest determinism property=%s seeds=%d executions=%d divergent=%d missing-or-failed=%d\n", prop, nSeeds, execs, bad, missing)
 	if bad > 0 || missing > 0 {
@@ -1101,14 +1170,27 @@ func selftest(sc *scratch, prop string, nSeeds int, verbose bool) (execs, bad, m
 	}
 	wg.Wait()
 	for s := 0; s < nSeeds; s++ {
-		uniq := map[string]bool{}
-		for _, v := range sums[s] {
-			uniq[v] = true
+		// the logs of one binary must be identical under every GOMAXPROCS; the race
+		// binary is compared with itself (it caps the Repeat amplifier lower than the
+		// plain one, so a plan that uses it legitimately logs different totals)
+		uniq := map[string]map[string]bool{}
+		for k, v := range sums[s] {
+			variant := strings.SplitN(k, "/", 2)[0]
+			if uniq[variant] == nil {
+				uniq[variant] = map[string]bool{}
+			}
+			uniq[variant][v] = true
 			if strings.HasPrefix(v, "missing") || strings.Contains(v, "worker failed") {
 				missing++
 			}
 		}
-		if len(uniq) != 1 {
+		diverged := false
+		for _, u := range uniq {
+			if len(u) != 1 {
+				diverged = true
+			}
+		}
+		if diverged {
 			bad++
 			if verbose {
 				fmt.Printf("NONDETERMINISM seed=%d: %v\n", 7000+s, sums[s])
